@@ -13,7 +13,14 @@ import (
 	"time"
 )
 
-const Root = "/verif"
+// Root is the verification directory (the directory of bin/check; /verif unless VERIF_ROOT says otherwise,
+// which lets a background sweep run from a snapshot without touching the live tree).
+var Root = func() string {
+	if r := os.Getenv("VERIF_ROOT"); r != "" {
+		return r
+	}
+	return "/verif"
+}()
 
 type Infra struct{ Err error }
 
